@@ -7,8 +7,8 @@ import MdkVerif.Props.C06
   C05 — Only admins change roster or group data; identities never change.  Decision logic of
   `process_commit` / `process_proposal` stated outright over the client model (commit contents are the
   model's `Body` + swept proposals; identities are the model's client numbers, which no operation of the
-  model rewrites: identity changes are rejected by OpenMLS/`validate_commit_identities`, exercised by
-  the harness's adversarial commits, not re-modelled).
+  model rewrites: identity changes are rejected by `validate_commit_identities`, exercised by
+  the harness's adversarial commits (op `advident`, implementation-only probe `vlib/c05ident.py`), not re-modelled).
 -/
 namespace MdkVerif.Props.C05
 open MdkVerif MdkVerif.Client
